@@ -115,7 +115,7 @@ SPECS["C01"] = dict(
     trusted="Go runtime bounds checks turn out-of-bounds reads into panics, which the harness catches; 65535-byte inputs are represented by structure, not enumerated.",
     rule="see evidence rule written by the harness",
     assumptions=["inputs beyond 2 deviations from the seed corpus are not covered", "hang detection uses a 10 s no-progress watchdog confirmed by 5 re-runs"],
-    parts=[dict(name="decoder", pkg="internal/dnsmsg", run="TestVerifC01Decoder", engines=("choice", "report", "refdns"),
+    parts=[dict(name="decoder", pkg="internal/dnsmsg", run="TestVerifC01Decoder", engines=("choice", "report", "refdns", "env", "sched"),
                 files=dict(DNSMSG_COMMON, **{"harness/dnsmsg/zz_verif_c01_test.go": "internal/dnsmsg/zz_verif_c01_test.go"}),
                 params={"quick": {"CLASSLEN": 5, "PAIRS": 0}, "thorough": {"CLASSLEN": 6, "PAIRS": 1}}),
            router_part("listeners", "TestVerifC01Listeners", ["zz_verif_c01_test.go", "zz_verif_c03_test.go"], shards=1, gomaxprocs=8, budget={"quick": 300, "thorough": 300})],
@@ -192,7 +192,10 @@ SPECS["C16"] = dict(
     assumptions=["one outstanding exchange at a time in this scenario (concurrency is C05/C06)"],
     parts=[dict(name="fallback", pkg="internal/upstream", run="TestVerifC16", go="go1.26", env=E3ENV, gomaxprocs=1, engines=E3ENGINES, shards=4,
                 files=dict(UPSTREAM_COMMON, **{"harness/upstream/zz_verif_c16_test.go": "internal/upstream/zz_verif_c16_test.go"}),
-                budget={"quick": 60, "thorough": 300})],
+                budget={"quick": 60, "thorough": 300}),
+           dict(name="wiring", pkg="internal/upstream", run="TestVerifC17Addr", go="go1.26", env=E3ENV, engines=E3ENGINES,
+                files=dict(UPSTREAM_COMMON, **{"harness/upstream/zz_verif_c17_test.go": "internal/upstream/zz_verif_c17_test.go"}),
+                params={"quick": {"SCHEMES": ",udp"}, "thorough": {"SCHEMES": ",udp"}}, budget={"quick": 60, "thorough": 60})],
 )
 
 
@@ -289,7 +292,11 @@ SPECS["C19"] = dict(
     rule="see evidence rule written by the harness",
     assumptions=[],
     parts=[router_part("prefetch", "TestVerifC19", ["zz_verif_c19_test.go", "zz_verif_c07_test.go", "zz_verif_c08_test.go", "zz_verif_c03_test.go"],
-                       params={"quick": {"DEPTH": 5, "FAULTS": 2}, "thorough": {"DEPTH": 7, "FAULTS": 3}})],
+                       params={"quick": {"DEPTH": 5, "FAULTS": 1, "MANYKEYS": 100, "SHARDDEPTH": 3}, "thorough": {"DEPTH": 7, "FAULTS": 3, "MANYKEYS": 400}}),
+           dict(name="ctl-e2", pkg="app/router", run="TestVerifC19E2", go="go", engines=E2ENGINES,
+                files={"harness/router/zz_verif_c19e2_test.go": "app/router/zz_verif_c19e2_test.go"},
+                generate=rewrite_imports("app/router/cache.go", {"sync": ("sync", "vsync")}),
+                params={"quick": {"PREEMPTIONS": 4}, "thorough": {"PREEMPTIONS": 8}}, budget={"quick": 60, "thorough": 600})],
 )
 
 SPECS["C13"] = dict(
@@ -421,7 +428,28 @@ def _c20_parts():
     return out
 
 
-SPECS["C20"]["parts"] = _c20_parts()
+def _mem_e2(pid):
+    import copy
+    for p in SPECS["C07"]["parts"]:
+        if p["name"] == "mem-e2":
+            d = copy.deepcopy(p)
+            d["name"] = "mem-e2"
+            return d
+
+
+def _decoder_own():
+    import copy
+    for p in SPECS["C01"]["parts"]:
+        if p["name"] == "decoder":
+            d = copy.deepcopy(p)
+            d["name"] = "decoder-ownership"
+            d["engines"] = ("choice", "report", "refdns", "env", "sched")
+            d["params"] = {"quick": {"CLASSLEN": 4, "PAIRS": 0}, "thorough": {"CLASSLEN": 5, "PAIRS": 0}}
+            return d
+
+
+SPECS["C20"]["parts"] = _c20_parts() + [_mem_e2("C20"), _decoder_own()]
+SPECS["C04"]["parts"].append(_mem_e2("C04"))
 
 # --------------------------------------------------------------------------------------------
 # Properties not (yet) claimed. Kept current: every property without a SPECS entry must be here.
